@@ -94,10 +94,13 @@ def check_C07(fx, eng, rep, tier):
 def check_C08(fx, eng, rep, tier):
     rep.explanation = ('Memory orders are compile-time constants at every call site; each write that ends a critical section (release of S/SIX/X, '
                        'downgrade) must have release semantics and each read that certifies an admission predicate (granting CAS/RMW, spin load, '
-                       'upgrade drain) must have acquire semantics (or a matching fence on the path). Every atomic site of the three classes is classified.')
-    rep.rule_text = 'C08.REL / C08.ACQ per (function, atomic site); sites not on a section boundary are listed in the evidence with the reason'
-    rep.trusted = ['clang 14 constant evaluation of the order arguments', 'C++20 release-sequence rules', 'C01 (plain stores only by X holders)']
-    res = _locks(fx, eng, rep, ALL_LOCKS, ['C08.'], {'PessimisticLock': 8, 'OptimisticLock': 12, 'MCSLock': 16})
+                       'upgrade drain) must have acquire semantics (or a matching fence on the path). Every atomic site of the three classes is classified. '
+                       'The ordering argument presupposes that conflicting sections do not overlap, so the exclusion rows of C01 / C10 / MCS are premises and are checked here too.')
+    rep.rule_text = 'C08.REL / C08.ACQ per (function, atomic site); sites not on a section boundary are listed in the evidence with the reason; + C01.ADM/ROWS/STORE/MASK/REL, C10.UPG/DOWN, MCS.* (exclusion premises)'
+    rep.trusted = ['clang 14 constant evaluation of the order arguments', 'C++20 release-sequence rules']
+    # two conflicting sections that overlap are not ordered at all: the exclusion rows are premises of the ordering argument
+    res = _locks(fx, eng, rep, ALL_LOCKS, ['C08.', 'C01.ADM', 'C01.ROWS', 'C01.STORE', 'C01.MASK', 'C01.REL', 'C10.UPG', 'C10.DOWN', 'MCS.', 'C12.LINK'],
+                 {'PessimisticLock': 8, 'OptimisticLock': 12, 'MCSLock': 16})
     table = []
     for cls, (m, sink) in res.items():
         seen = set()
@@ -372,11 +375,11 @@ def check_C20(fx, eng, rep, tier):
     r, sink = epoch.analyse(fx, eng)
     rep.explanation = ('Sequential histories: exactness of the published list = EP.SCAN + LIST.SORT + EPOCH.MIN. NODE.ALLOC: list nodes are allocated only at a 256-epoch boundary and '
                        'in the constructor, each becoming the head linked to the previous head. NODE.FREE: unlink before delete, never the head, no access afterwards. DTOR.WALK: the '
-                       'destructor starts at the head, reads next before deleting each node, deletes each visited node once and stops at null. Not decided: the retention bound of '
-                       'RemoveOutDatedLists (depends on runtime epochs).')
-    rep.rule_text = 'C20.ALLOC / C20.WALK / C20.UAF + C17.FREE / C17.OWN (node lookup) + C04.SCAN / C04.PUBLISH / C16.SORT / C16.MIN'
+                       'destructor starts at the head, reads next before deleting each node, deletes each visited node once and stops at null. NODE.KEEP: the retirement walk keeps a node only on an equality test of its range bits (a node kept '
+                       'on an order comparison alone stays without a protected epoch in its range). Not decided beyond that: the retention bound of RemoveOutDatedLists (depends on runtime epochs).')
+    rep.rule_text = 'C20.ALLOC / C20.WALK / C20.KEEP / C20.UAF + C17.FREE / C17.OWN (node lookup) + C04.SCAN / C04.PUBLISH / C16.SORT / C16.MIN'
     rep.trusted = ['clang 14 AST/CFG', 'std::sort/unique/erase semantics']
-    rep.assumptions = ['the retention bound is not decided']
+    rep.assumptions = ['the retention bound is decided only through C20.KEEP / C20.WALKINV (necessary conditions)']
     n = _take(rep, sink, ['C20.', 'C17.FREE', 'C17.OWN', 'C04.SCAN', 'C04.PUBLISH', 'C16.SORT', 'C16.MIN', 'C04.GUARD', 'C04.ENTER', 'C04.BIND'])
     _thread_fns(rep, fx, EPOCH_TUS)
     rep.floor('C20 obligations', n, 15)
